@@ -28,7 +28,8 @@ JudgeRow(ev) ==
       bad(P(_)) == {j \in 1..n : P(j)}
       rep(B, clause) == B = {} \/ Report(clause, ev, [row |-> r, n |-> Cardinality(B), first |-> CHOOSE j \in B : \A q \in B : j <= q])
   IN
-  /\ (ev.parsed \/ Report("item_rejected_by_parser", ev, r))
+  \* an item the parser refuses is a defect of the generator, not of Eq / Ord / Hash
+  /\ (ev.parsed \/ PrintT("VERDICT " \o ToJson(<<"TOOL", "item_rejected_by_parser", ev.id, 0, ev.abs>>)))
   /\ (~ev.parsed \/
       /\ rep(bad(LAMBDA j : ev.ok[j] /\ ev.eq[j] /\ ev.base[j] # ev.base[r]), "eq_but_structurally_different")
       /\ rep(bad(LAMBDA j : ev.ok[j] /\ ~ev.eq[j] /\ ev.base[j] = ev.base[r]), "structurally_equal_but_neq")
